@@ -98,6 +98,7 @@ impl World {
             mtype,
             xid,
             chaddr: self.mac,
+            client_id: None,
             yiaddr: yi,
             server_id: Some(p.srv_id),
             mask: if addr_bearing { Some(prefix_mask(p.prefix)) } else { None },
@@ -167,6 +168,14 @@ impl World {
                 "options-overrun-late" => r.tail = Tail::Overrun,
                 "options-no-end" => r.tail = Tail::NoEnd,
                 _ => unreachable!(),
+            }
+            // a message for another client may still carry OUR hardware address as client identifier
+            // (decided from the transaction id: no further draw, saved tapes keep their meaning)
+            if matches!(d, "chaddr-other" | "chaddr-last-byte") && (xid >> 3) & 1 == 1 {
+                let mut c = vec![1u8];
+                c.extend_from_slice(&self.mac);
+                r.client_id = Some(c);
+                ctx.label("reply:foreign-chaddr-with-our-client-identifier");
             }
             ctx.label(&format!("defect:{}:{}", type_name(mtype), d));
         }
